@@ -138,3 +138,84 @@ B("C06", "extra-logging-in-job", CONT,
     return continuum.get_best_soft_alignment(dissimilarity)""")
 
 REGRESSIONS = []
+
+# =============================================================================================
+# C14
+# =============================================================================================
+REGRESSIONS.append(dict(prop="C14", id="regression/F8-cst-aliases-reference-categories", patch="7f523c6.diff", rule="R-C14-1",
+                        note="pinned tree: CorpusShufflingTool mutated and shared the reference's category set"))
+M("C14", "fast-alignment-without-copy", CONT,
+  "        copy = self.copy()\n        unitary_alignments = []",
+  "        copy = self\n        unitary_alignments = []",
+  "R-C14-1", "fast alignment empties the caller's continuum")
+M("C14", "getitem-returns-internal-set", CONT,
+  "                return deepcopy(self._annotations[keys])",
+  "                return self._annotations[keys]",
+  "R-C14-2")
+M("C14", "init-sampling-resets-bounds", SAM,
+  """        self._reference_continuum = reference_continuum
+        if ground_truth_annotators is None:""",
+  """        self._reference_continuum = reference_continuum
+        reference_continuum.reset_bounds()
+        if ground_truth_annotators is None:""",
+  "R-C14-1")
+M("C14", "compute-disorder-caches-on-dissimilarity", DIS,
+  """        alignment_arrays = self._build_arrays_alignment(alignment)
+        return""",
+  """        alignment_arrays = self._build_arrays_alignment(alignment)
+        self.last_alignment_arrays = alignment_arrays
+        return""",
+  "R-C14-1")
+M("C14", "corpus-shuffle-adds-ref-into-reference", CST,
+  """            for unit in self._reference_continuum[next(iter(self._reference_continuum.annotators))]:
+                continuum.add(self._reference_annotator, unit.segment, unit.annotation)""",
+  """            for unit in self._reference_continuum[next(iter(self._reference_continuum.annotators))]:
+                continuum.add(self._reference_annotator, unit.segment, unit.annotation)
+            self._reference_continuum.add_annotator("generated")""",
+  "R-C14-1")
+M("C14", "copy-shares-unit-sets", CONT,
+  "        continuum._annotations = deepcopy(self._annotations)",
+  "        continuum._annotations = SortedDict(self._annotations)",
+  "R-C14-2", "shallow copy: the per-annotator sets are shared")
+M("C14", "copy-shares-categories", CONT,
+  "        continuum._categories = SortedSet(self._categories)",
+  "        continuum._categories = self._categories",
+  "R-C14-2")
+M("C14", "sampler-keeps-internal-categories", SAM,
+  """        categories_set = self._reference_continuum.categories
+        self._categories = np.array(categories_set)""",
+  """        categories_set = self._reference_continuum.categories
+        self._cat_set = categories_set
+        self._categories = np.array(categories_set)""",
+  "R-C14-4")
+M("C14", "shuffle-sampler-works-on-reference", SAM,
+  "        new_continuum = continuum.copy_flush()\n        annotators = self._ground_truth_annotators",
+  "        new_continuum = continuum\n        annotators = self._ground_truth_annotators",
+  "R-C14-1")
+M("C14", "merge-out-of-place-mutates-self", CONT,
+  "        current_cont = self if in_place else self.copy()",
+  "        current_cont = self",
+  "R-C14-1")
+M("C14", "gamma-results-mutates-continuum-via-alignment", ALI,
+  """        if not isinstance(dissimilarity, CombinedCategoricalDissimilarity):
+            raise TypeError(""",
+  """        if self.continuum is not None:
+            self.continuum.reset_bounds()
+        if not isinstance(dissimilarity, CombinedCategoricalDissimilarity):
+            raise TypeError(""",
+  "R-C14-1")
+B("C14", "extra-readonly-accessor", CONT,
+  """    @property
+    def num_annotators(self) -> int:""",
+  """    @property
+    def first_annotator(self) -> str:
+        return self._annotations.keys()[0]
+
+    @property
+    def num_annotators(self) -> int:""")
+B("C14", "copy-via-deepcopy-of-categories", CONT,
+  "        continuum._categories = SortedSet(self._categories)",
+  "        continuum._categories = deepcopy(self._categories)")
+B("C14", "fast-alignment-copy-via-merge", CONT,
+  "        copy = self.copy()\n        unitary_alignments = []",
+  "        copy = self.merge(Continuum(), in_place=False)\n        unitary_alignments = []")
